@@ -1500,7 +1500,7 @@ func runC06(o Opts) (*Result, error) {
 	})
 
 	seen := map[string]bool{}
-	perShard := 40
+	perShard := 20
 	var cases []string
 	shard := 0
 	flush := func() error {
